@@ -90,6 +90,14 @@ def templates(cfg):
     # string keys and string min/max
     T("str_key", lambda p, t: t >> p.group_by(t.s) >> p.summarize(n=p.count(), s2=t.b.sum()), S_STR, alphabet="ab", nmax=3)
     T("str_minmax", lambda p, t: t >> p.summarize(lo=t.s.min(), hi=t.s.max()), S_STR, alphabet="ab", nmax=3)
+    # grouping state corner cases: one column twice; a grouping column that is dropped / overwritten /
+    # de-selected before summarize (still groups, is not shown)
+    T("dup_group_key", lambda p, t: t >> p.group_by(t.g, t.g) >> p.summarize(n=p.count(), s=t.b.sum()))
+    T("dup_group_key_add", lambda p, t: t >> p.group_by(t.g) >> p.group_by(t.g, t.p, add=True) >> p.summarize(n=p.count()))
+    T("dup_group_key_window", lambda p, t: t >> p.group_by(t.g, "g") >> p.mutate(s=t.b.sum()) >> p.ungroup())
+    T("hidden_key_dropped", lambda p, t: t >> p.group_by(t.g) >> p.drop(t.g) >> p.summarize(n=p.count()))
+    T("hidden_key_overwritten", lambda p, t: t >> p.group_by(t.g) >> p.mutate(g=t.a) >> p.summarize(n=p.count(), s=t.b.sum()))
+    T("hidden_key_selected_away", lambda p, t: t >> p.group_by(t.g) >> p.select(t.a, t.b) >> p.summarize(m=t.a.max()))
     from . import temporal
 
     out += temporal.templates_for("C04", cfg)
